@@ -67,12 +67,34 @@ def observe(r):
     return {"sev": 2, "values": r, "delay": None, "msg": None, "loc": None}
 
 
+def _attrs(o):
+    return (type(o).__name__, getattr(o, "message", None), getattr(o, "location", None),
+            getattr(o, "delay", None), repr(getattr(o, "data", None)))
+
+
+class InputsMutated(Exception):
+    pass
+
+
 def run_impl(case):
+    """combine the sequence; then combine the SAME objects again (and a rotation of them): the inputs must be
+    left untouched and the second result must be the same — 'combining any sequence … whatever the order'
+    is about values, so combining must not consume or modify the outcomes it is given."""
     from koreo import result
     xs = [mk(i) for i in case["xs"]]
-    if case["mode"] == "combine":
-        return observe(result.combine(xs))
-    return observe(result.unwrapped_combine(xs))
+    before = [_attrs(x) for x in xs]
+    f = result.combine if case["mode"] == "combine" else result.unwrapped_combine
+    first = observe(f(xs))
+    if [_attrs(x) for x in xs] != before:
+        raise InputsMutated("combine modified the outcomes it was given")
+    again = observe(f(xs))
+    if again != first:
+        raise InputsMutated(f"combining the same outcome objects a second time gives a different result: {first} then {again}")
+    if len(xs) > 1:
+        f(xs[1:] + xs[:1])
+        if [_attrs(x) for x in xs] != before or observe(f(xs)) != first:
+            raise InputsMutated("combining a rotation of the same outcome objects changes them / a later result")
+    return first
 
 
 # ---- Gallina ----------------------------------------------------------------
@@ -302,6 +324,9 @@ def run(ctx: Ctx):
     for case in gen_cases(ctx):
         try:
             obs = check_one(ctx, case, permute=(len(cases) % 3 == 0))
+        except InputsMutated as e:
+            ctx.fail(Failure(signature=f"{case['mode']}: combining modifies its inputs", what=str(e), case=case))
+            continue
         except Exception as e:  # the real code raised: not a value the model can produce
             ctx.fail(Failure(signature=f"{case['mode']}: raises {type(e).__name__}",
                              what=f"result.{case['mode']} raised {e!r}", case=case))
